@@ -4,6 +4,7 @@ import (
 	"fmt"
 	"go/constant"
 	"go/token"
+	"go/types"
 	"strings"
 
 	"golang.org/x/tools/go/ssa"
@@ -20,6 +21,36 @@ func loadOfField(v ssa.Value, suffix string) (base ssa.Value, ok bool) {
 	if cv, isC := v.(*ssa.Convert); isC {
 		v = cv.X
 	}
+	// a parameter of an unexported function that every caller fills with that field (a method turned
+	// into a function of the data it used to read from its receiver)
+	if prm, isP := v.(*ssa.Parameter); isP {
+		f := prm.Parent()
+		if f == nil || isExportedAPI(f) {
+			return nil, false
+		}
+		idx := -1
+		for i, q := range f.Params {
+			if q == prm {
+				idx = i
+			}
+		}
+		sites := staticCallSites(f)
+		if idx < 0 || len(sites) == 0 {
+			return nil, false
+		}
+		var base ssa.Value
+		for _, c := range sites {
+			if idx >= len(c.Args) {
+				return nil, false
+			}
+			b, ok := loadOfField(c.Args[idx], suffix)
+			if !ok {
+				return nil, false
+			}
+			base = b
+		}
+		return base, true
+	}
 	u, isU := v.(*ssa.UnOp)
 	if !isU || u.Op != token.MUL {
 		return nil, false
@@ -29,6 +60,68 @@ func loadOfField(v ssa.Value, suffix string) (base ssa.Value, ok bool) {
 		return nil, false
 	}
 	return fa.X, true
+}
+
+var callSiteCache = map[*ssa.Program]map[*ssa.Function][]*ssa.CallCommon{}
+
+// staticCallSites: all static call sites of f in its program (cached per program).
+func staticCallSites(f *ssa.Function) []*ssa.CallCommon {
+	prog := f.Prog
+	m, ok := callSiteCache[prog]
+	if !ok {
+		m = map[*ssa.Function][]*ssa.CallCommon{}
+		for _, pkg := range prog.AllPackages() {
+			for _, mem := range pkg.Members {
+				g, ok := mem.(*ssa.Function)
+				if !ok {
+					continue
+				}
+				collectCallSites(g, m)
+			}
+			// methods
+			for _, mem := range pkg.Members {
+				if t, ok := mem.(*ssa.Type); ok {
+					for _, tt := range []types.Type{t.Type(), types.NewPointer(t.Type())} {
+						ms := prog.MethodSets.MethodSet(tt)
+						for i := 0; i < ms.Len(); i++ {
+							if g := prog.MethodValue(ms.At(i)); g != nil {
+								collectCallSites(g, m)
+							}
+						}
+					}
+				}
+			}
+		}
+		callSiteCache[prog] = m
+	}
+	return m[f]
+}
+
+func collectCallSites(g *ssa.Function, m map[*ssa.Function][]*ssa.CallCommon) {
+	if g.Blocks == nil {
+		return
+	}
+	var walk func(h *ssa.Function)
+	seen := map[*ssa.Function]bool{}
+	walk = func(h *ssa.Function) {
+		if seen[h] {
+			return
+		}
+		seen[h] = true
+		for _, b := range h.Blocks {
+			for _, ins := range b.Instrs {
+				if ci, ok := ins.(ssa.CallInstruction); ok {
+					if callee := ci.Common().StaticCallee(); callee != nil {
+						m[callee] = append(m[callee], ci.Common())
+					}
+				}
+			}
+		}
+		for _, an := range h.AnonFuncs {
+			walk(an)
+		}
+	}
+	walk(g)
 }
 
 func fieldOfValue(v ssa.Value, suffix string) (base ssa.Value, ok bool) {
@@ -479,6 +572,9 @@ func ruleV2(p *Prog) *RuleResult {
 	res := newResult("V2", ruleDoc["V2"], 12)
 	for _, cj := range validatorConjuncts {
 		f := p.Func(cj.fn)
+		if f == nil {
+			f = p.funcAsFree(cj.fn)
+		}
 		c := cj.fn + "|" + cj.name
 		if f == nil {
 			res.undecided(c, "-", "validator not found")
@@ -648,4 +744,15 @@ func forwardedCheckers(f *ssa.Function) []*ssa.Function {
 	}
 	visit(f, 0)
 	return out
+}
+
+// funcAsFree: a method named "(*pkg.T).name" that was turned into the free function pkg.name (taking the
+// data it used to read from its receiver as a parameter).
+func (p *Prog) funcAsFree(method string) *ssa.Function {
+	i := strings.LastIndex(method, ").")
+	j := strings.Index(method, ".")
+	if i < 0 || j < 0 || !strings.HasPrefix(method, "(*") {
+		return nil
+	}
+	return p.Func(method[2:j] + "." + method[i+2:])
 }
